@@ -269,7 +269,7 @@ def find_goto_binary(h, slot):
 TRACE_RE = re.compile(r"^\s*goto_symex\$\$return_value\$\$\S*any_raw\S*=.*\(([01 ]+)\)\s*$", re.M)
 
 
-def extract_values(h, slot, logdir, prop_name, tag):
+def extract_values(h, slot, logdir, prop_name, tag, sliced=True):
     """Ask CBMC directly for a trace of one property (failed check or satisfied cover) of the goto binary
     Kani built, and read the kani::any() values off it in call order.  (Kani's own concrete-playback mode
     builds JSON traces without slicing and did not finish within 30 min on these harnesses; this takes seconds.)"""
@@ -279,7 +279,8 @@ def extract_values(h, slot, logdir, prop_name, tag):
     more = []
     if "--cbmc-args" in h.extra_args:
         more = h.extra_args[h.extra_args.index("--cbmc-args") + 1:]
-    cmd = ["cbmc"] + CBMC_FLAGS + (["--unwind", str(unwind)] if unwind else []) + more + ["--trace", "--property", prop_name, gb]
+    flags = [f for f in CBMC_FLAGS if sliced or f != "--slice-formula"]
+    cmd = ["cbmc"] + flags + (["--unwind", str(unwind)] if unwind else []) + more + ["--trace", "--property", prop_name, gb]
     lf = os.path.join(logdir, f"{h.name}.trace.{tag}.log")
     rc, why, _peak = run_limited(cmd, os.path.dirname(gb), max(600, h.timeout_s), h.mem_gb * 2, lf)
     if why:
@@ -306,7 +307,10 @@ def run_kani(h, slot, logdir, playback=None):
         vals, err = extract_values(h, slot, logdir, real[0]["check"], "cex")
         r["playback"] = vals
         r["playback_check"] = real[0]["description"]
+        r["playback_check_name"] = real[0]["check"]
         r["playback_error"] = err
+        r["slot"] = slot
+        r["logdir"] = logdir
         r["wall_s"] = round(r["wall_s"] + time.time() - t0, 1)
     elif r["status"] == "pass" and h.witnesses:
         r["cover_samples"] = {}
@@ -539,6 +543,17 @@ def run_property(prop, tier, harnesses, meta, jobs=None, pre=None):
         r["replay_file"] = path
         if path:
             rep = replay_native(r["crate"], r["harness"], path)
+            if not rep["reproduced"] and r.get("playback_check_name"):
+                # formula slicing drops nondeterministic inputs the violated check does not depend on; when they are
+                # missing from the middle of the stream the native replay runs on shifted inputs.  Ask again without slicing.
+                hh = next((x for x in harnesses if x.name == r["harness"]), None)
+                if hh is not None:
+                    vals2, _err2 = extract_values(hh, r["slot"], r["logdir"], r["playback_check_name"], "cex_unsliced", sliced=False)
+                    if vals2:
+                        r["playback"] = vals2
+                        path = save_vals(prop, r)
+                        r["replay_file"] = path
+                        rep = replay_native(r["crate"], r["harness"], path)
             r["replay"] = rep
         else:
             rep = {"reproduced": False, "profiles": {}, "error": "no concrete playback values in Kani output"}
